@@ -228,13 +228,73 @@ theorem ports_build_facts (fuel : ℕ) (size horizon : ℚ) (hsize : 0 < size) (
   exact ⟨hinv, by rw [hsz]; exact ne_of_gt hsize, hpj.noArcs,
     fun p _ q _ x hx hy => hpj.disj p q x hx hy, fun p _ q _ x hx hy => hpj.disj p q x hx hy⟩
 
-/-- `finish` is what `Mirp.build` does on the three closing helper calls -/
+/-- `finish` is what `Mirp.build` does on the three closing helper calls, provided `add_travel_arcs` does
+    not divide by a zero vessel speed (it does so as soon as there is one supply port and one demand port;
+    see `build_travel_zero_speed` for the complementary case) -/
 theorem build_finish (fuel : ℕ) (m mf : Mirp) (speed unit : ℚ) (dtab : List (String × String × ℚ))
-    (sf df : List (String × ℚ)) (xt xc limit et ec : ℚ) :
+    (sf df : List (String × ℚ)) (xt xc limit et ec : ℚ)
+    (hsp : speed ≠ 0 ∨ m.supply = [] ∨ m.demand = []) :
     Mirp.build fuel m [MOp.travel speed unit dtab sf df, MOp.exit xt xc, MOp.entry limit et ec] = some mf ↔
       finish m (lookupDist dtab) speed unit (lookupD sf) (lookupD df) xt xc limit et ec = some mf := by
-  simp only [Mirp.build, Mirp.step, finish]
+  have hz : ¬ (speed = 0 ∧ m.supply ≠ [] ∧ m.demand ≠ []) := by
+    rintro ⟨h0, hs, hd⟩
+    rcases hsp with h | h | h
+    · exact h h0
+    · exact hs h
+    · exact hd h
+  have htr : m.step fuel (MOp.travel speed unit dtab sf df) =
+      (m.addTravelArcs (lookupDist dtab) speed unit (lookupD sf) (lookupD df), .ok []) := by
+    rw [step_travel, if_neg hz]
+  simp only [Mirp.build, htr, finish]
+  simp only [Mirp.step]
   cases ((m.addTravelArcs (lookupDist dtab) speed unit (lookupD sf) (lookupD df)).addExitArcs xt xc).addEntryArcs
     limit et ec <;> simp
+
+/-- the model rejects what the code rejects: `add_travel_arcs` with vessel speed 0 raises
+    `ZeroDivisionError` as soon as there is a (supply port, demand port) pair, so no build containing that
+    call at that point succeeds -/
+theorem build_travel_zero_speed (fuel : ℕ) (m : Mirp) (speed unit : ℚ) (dtab : List (String × String × ℚ))
+    (sf df : List (String × ℚ)) (rest : List MOp)
+    (h0 : speed = 0) (hs : m.supply ≠ []) (hd : m.demand ≠ []) :
+    Mirp.build fuel m (MOp.travel speed unit dtab sf df :: rest) = none := by
+  subst h0
+  simp only [Mirp.build, step_travel_zero_speed fuel m unit dtab sf df hs hd]
+
+/-- in particular the three closing calls fail with speed 0 when both port lists are non-empty, although
+    `finish` (which applies `addTravelArcs` directly, with `x / 0 = 0`) may well be `some _` -/
+theorem build_finish_zero_speed (fuel : ℕ) (m : Mirp) (unit : ℚ) (dtab : List (String × String × ℚ))
+    (sf df : List (String × ℚ)) (xt xc limit et ec : ℚ) (hs : m.supply ≠ []) (hd : m.demand ≠ []) :
+    Mirp.build fuel m [MOp.travel 0 unit dtab sf df, MOp.exit xt xc, MOp.entry limit et ec] = none :=
+  build_travel_zero_speed fuel m 0 unit dtab sf df _ rfl hs hd
+
+/-! ## non-vacuity
+
+A concrete standard build (cargo size 1, horizon 4, supply port `S` with rate 1, demand port `D` with rate
+−1, three visits each; vessel speed 1), evaluated by the kernel: the port declarations succeed and give a
+`PortsDeclared` state `m` (by `ports_build_facts`), the three closing calls succeed, so `finish … = some mf`
+(by `build_finish`), and the finished graph contains the travel arc `S-0 → D-0` (positions `1 → 4`), which
+`arcs_sound` classifies as a specified arc; the dummy vessel `Dum0` sits at position 7. -/
+example : ∃ m mf,
+    Mirp.build 10 (Mirp.new 1 4) [.port "S" 0 1 2, .port "D" 2 (-1) 2] = some m ∧ PortsDeclared m ∧
+    Mirp.build 10 m [.travel 1 1 [("S", "D", 1)] [("S", 3)] [("D", 5)], .exit 1 0, .entry 3 0 0] = some mf ∧
+    finish m (lookupDist [("S", "D", 1)]) 1 1 (lookupD [("S", 3)]) (lookupD [("D", 5)]) 1 0 3 0 0 = some mf ∧
+    mf.g.hasArc 1 4 = true ∧ mf.g.hasArc 0 7 = true ∧ mf.g.hasArc 7 4 = true ∧
+    SpecArc m mf (lookupDist [("S", "D", 1)]) 1 3 0 1 4 := by
+  have h : ((Mirp.build 10 (Mirp.new 1 4) [.port "S" 0 1 2, .port "D" 2 (-1) 2]).bind fun m =>
+      (Mirp.build 10 m [.travel 1 1 [("S", "D", 1)] [("S", 3)] [("D", 5)], .exit 1 0, .entry 3 0 0]).map
+        fun mf => (mf.g.hasArc 1 4, mf.g.hasArc 0 7, mf.g.hasArc 7 4)) = some (true, true, true) := by
+    decide +kernel
+  obtain ⟨m, hm, h2⟩ := Option.bind_eq_some_iff.mp h
+  obtain ⟨mf, hmf, hv⟩ := Option.map_eq_some_iff.mp h2
+  simp only [Prod.mk.injEq] at hv
+  have hpd : PortsDeclared m := ports_build_facts 10 1 4 (by decide) _
+    (by intro op hop
+        simp only [List.mem_cons, List.not_mem_nil, or_false] at hop
+        rcases hop with rfl | rfl
+        · exact ⟨_, _, _, _, rfl⟩
+        · exact ⟨_, _, _, _, rfl⟩)
+    (by decide) m hm
+  have hf := (build_finish 10 m mf 1 1 _ _ _ 1 0 3 0 0 (Or.inl (by decide))).mp hmf
+  exact ⟨m, mf, hm, hpd, hmf, hf, hv.1, hv.2.1, hv.2.2, arcs_sound hpd hf 1 4 hv.1⟩
 
 end Vrp.C12b
